@@ -9,8 +9,20 @@ use simcore::driver::CaseReport;
 use crate::hist::{HistSpec, Op, World};
 use crate::observe;
 
-fn seeds_for(spec_seed: u64, k: usize) -> Vec<u64> {
-    (0..k).map(|i| simcore::rng::derive(spec_seed, &format!("sweep{i}"))).collect()
+/// Sweep points (hash seed, heap salt): the first ~two thirds vary the hash seed with an
+/// untouched heap, the rest keep the first hash seed and vary the heap layout of the run thread.
+fn seeds_for(spec_seed: u64, k: usize) -> Vec<(u64, u64)> {
+    let first = simcore::rng::derive(spec_seed, "sweep0");
+    let n_hash = (k * 2).div_ceil(3).max(2).min(k);
+    (0..k)
+        .map(|i| {
+            if i < n_hash {
+                (simcore::rng::derive(spec_seed, &format!("sweep{i}")), 0)
+            } else {
+                (first, simcore::rng::derive(spec_seed, &format!("heap{i}")) | 1)
+            }
+        })
+        .collect()
 }
 
 pub fn sweep_width() -> usize {
@@ -44,11 +56,11 @@ pub fn c11_run(spec_v: &Value, verbose: bool) -> CaseReport {
         Err(e) => return CaseReport { error: Some(format!("bad spec: {e}")), ..Default::default() },
     };
     let k = sweep_width();
-    let mut outs: Vec<(u64, Vec<String>)> = Vec::new();
-    for hs in seeds_for(spec.seed, k) {
+    let mut outs: Vec<((u64, u64), Vec<String>)> = Vec::new();
+    for (hs, salt) in seeds_for(spec.seed, k) {
         let s = spec.clone();
-        match simcore::on_fresh_thread(hs, 64, move || c11_once(&s)) {
-            Ok(lines) => outs.push((hs, lines)),
+        match simcore::on_fresh_thread_salted(hs, salt, 64, move || c11_once(&s)) {
+            Ok(lines) => outs.push(((hs, salt), lines)),
             Err(e) => {
                 return CaseReport {
                     violations: vec![("C11:panicked".into(), e.chars().take(300).collect())],
@@ -71,7 +83,7 @@ pub fn c11_run(spec_v: &Value, verbose: bool) -> CaseReport {
         for (cl, det) in crate::hist::class_of_diff_pub("C11", "depends-on-hash-seed", &df, &base.1) {
             violations.push((
                 cl,
-                format!("{} distinct outcomes over {k} hash seeds; seed {:#x} vs {:#x}: {det}", distinct.len(), base.0, other.0),
+                format!("{} distinct outcomes over {k} sweep points; (hash seed, heap salt) {:x?} vs {:x?}: {det}", distinct.len(), base.0, other.0),
             ));
         }
     }
@@ -268,14 +280,14 @@ pub fn c32_run(spec_v: &Value, verbose: bool) -> CaseReport {
         Err(e) => return CaseReport { error: Some(format!("bad spec: {e}")), ..Default::default() },
     };
     let k = sweep_width().max(16);
-    let mut outcomes: Vec<(u64, String)> = Vec::new();
-    for hs in seeds_for(spec.seed, k) {
+    let mut outcomes: Vec<((u64, u64), String)> = Vec::new();
+    for (hs, salt) in seeds_for(spec.seed, k) {
         let files = spec.files.clone();
-        let r = simcore::on_fresh_thread(hs, 16, move || {
+        let r = simcore::on_fresh_thread_salted(hs, salt, 16, move || {
             let e = emmylua_code_analysis::load_configs(Vec::new(), Some(files));
             serde_json::to_string(&e).unwrap_or_default()
         });
-        outcomes.push((hs, r.unwrap_or_else(|e| format!("panicked: {}", e.chars().take(120).collect::<String>()))));
+        outcomes.push(((hs, salt), r.unwrap_or_else(|e| format!("panicked: {}", e.chars().take(120).collect::<String>()))));
     }
     let mut violations = Vec::new();
     let mut counters = BTreeMap::new();
@@ -321,7 +333,7 @@ pub fn c32_run(spec_v: &Value, verbose: bool) -> CaseReport {
     if verbose {
         println!("spec: {}", serde_json::to_string_pretty(&spec).unwrap_or_default());
         for o in &outcomes {
-            println!("{:#x}: {}", o.0, o.1.chars().take(200).collect::<String>());
+            println!("{:x?}: {}", o.0, o.1.chars().take(200).collect::<String>());
         }
     }
     let d = simcore::digest_str(&outcomes.iter().map(|o| o.1.clone()).collect::<Vec<_>>().join("\n"));
@@ -355,6 +367,230 @@ pub fn c32_shrink(spec_v: &Value) -> Vec<Value> {
                     out.push(s);
                 }
             }
+        }
+    }
+    out.into_iter().filter_map(|s| serde_json::to_value(s).ok()).collect()
+}
+
+// ------------------------------------------------------------------------------------------ C35
+
+#[derive(serde::Serialize, serde::Deserialize, Clone, Debug)]
+pub struct DocSpec {
+    pub seed: u64,
+    pub files: Vec<crate::ws::FileSpec>,
+    pub variants: Vec<u32>,
+}
+
+pub fn c35_generate(seed: u64) -> DocSpec {
+    let mut r = simcore::Rng::stream(seed, "workload");
+    let files = crate::ws::gen_workspace(&mut r, 3, 8);
+    let variants = files.iter().map(|_| *r.pick(&[0u32, 0, 0, 1])).collect();
+    DocSpec { seed, files, variants }
+}
+
+/// Entities the generated main workspace declares: (kind, name).
+fn declared_entities(spec: &DocSpec) -> (Vec<(String, String)>, Vec<String>) {
+    let mut main = Vec::new();
+    let mut lib = Vec::new();
+    for (f, v) in spec.files.iter().zip(&spec.variants) {
+        let text = crate::ws::file_text(&f.kind, f.n, *v);
+        let is_lib = f.rel.starts_with("lib/");
+        for line in text.lines() {
+            let l = line.trim();
+            for (tag, kind) in [("---@class ", "class"), ("---@enum ", "enum"), ("---@alias ", "alias")] {
+                if let Some(rest) = l.strip_prefix(tag) {
+                    let rest = rest.trim_start_matches("(partial) ").trim_start_matches("(exact) ");
+                    let name: String = rest.chars().take_while(|c| c.is_alphanumeric() || *c == '_' || *c == '.').collect();
+                    if !name.is_empty() {
+                        if is_lib { lib.push(name) } else { main.push((kind.to_string(), name)) }
+                    }
+                }
+            }
+        }
+    }
+    main.sort();
+    main.dedup();
+    (main, lib)
+}
+
+pub fn c35_run(spec_v: &Value, verbose: bool) -> CaseReport {
+    let spec: DocSpec = match serde_json::from_value(spec_v.clone()) {
+        Ok(s) => s,
+        Err(e) => return CaseReport { error: Some(format!("bad spec: {e}")), ..Default::default() },
+    };
+    let run_dir = simcore::scratch::RunDir::acquire("doc", spec.seed);
+    let dir = run_dir.0.clone();
+    let ws = dir.join("ws");
+    let has_lib = spec.files.iter().any(|f| f.rel.starts_with("lib/"));
+    for (f, v) in spec.files.iter().zip(&spec.variants) {
+        // library files live outside the main workspace root
+        let p = if let Some(rest) = f.rel.strip_prefix("lib/") { dir.join("lib").join(rest) } else { ws.join(&f.rel) };
+        if let Some(parent) = p.parent() {
+            let _ = std::fs::create_dir_all(parent);
+        }
+        std::fs::write(&p, crate::ws::file_text(&f.kind, f.n, *v)).expect("write doc ws");
+    }
+    let _ = std::fs::create_dir_all(&ws);
+    if has_lib {
+        std::fs::write(ws.join(".emmyrc.json"), json!({"workspace": {"library": [dir.join("lib").to_string_lossy()]}}).to_string()).expect("emmyrc");
+    }
+    let k = sweep_width().min(6).max(2);
+    let mut outs: Vec<((u64, u64), Result<Vec<u8>, String>)> = Vec::new();
+    for (i, (hs, salt)) in seeds_for(spec.seed, k).into_iter().enumerate() {
+        let out_path = dir.join(format!("out{i}.json"));
+        let (ws2, out2) = (ws.clone(), out_path.clone());
+        let r = simcore::on_fresh_thread_salted(hs, salt, 256, move || {
+            let args = emmylua_doc_cli::CmdArgs {
+                config: None,
+                input: vec![],
+                workspace: vec![ws2],
+                exclude_pattern: None,
+                include_pattern: None,
+                output_format: emmylua_doc_cli::Format::Json,
+                format: None,
+                output: emmylua_doc_cli::OutputDestination::File(out2),
+                override_template: None,
+                site_name: None,
+                mixin: None,
+                verbose: false,
+            };
+            emmylua_doc_cli::run_doc_cli(args).map_err(|e| e.to_string())
+        });
+        let bytes = match r {
+            Ok(Ok(())) => std::fs::read(&out_path).map_err(|e| e.to_string()),
+            Ok(Err(e)) => Err(format!("error: {e}")),
+            Err(e) => Err(format!("panicked: {e}")),
+        };
+        outs.push(((hs, salt), bytes));
+    }
+    if let Ok(d) = std::env::var("VERIF_C35_DUMP") {
+        let _ = std::fs::create_dir_all(&d);
+        for (i, o) in outs.iter().enumerate() {
+            if let Ok(b) = &o.1 {
+                let _ = std::fs::write(format!("{d}/out{i}.json"), b);
+            }
+        }
+    }
+    drop(run_dir);
+    let mut violations = Vec::new();
+    let mut counters = BTreeMap::new();
+    counters.insert("hash_seeds_swept".to_string(), k as u64);
+    let first = outs[0].1.clone();
+    let distinct: std::collections::BTreeSet<String> = outs
+        .iter()
+        .map(|o| match &o.1 {
+            Ok(b) => simcore::digest_str(&String::from_utf8_lossy(b)),
+            Err(e) => e.clone(),
+        })
+        .collect();
+    if distinct.len() > 1 {
+        // what differs: order only, or content?
+        let norm = |b: &Result<Vec<u8>, String>| -> String {
+            match b {
+                Ok(b) => {
+                    let mut lines: Vec<&str> = std::str::from_utf8(b).unwrap_or("").lines().map(|l| l.trim().trim_end_matches(',')).collect();
+                    lines.sort();
+                    lines.join("\n")
+                }
+                Err(e) => e.clone(),
+            }
+        };
+        let sorted: std::collections::BTreeSet<String> = outs.iter().map(|o| norm(&o.1)).collect();
+        let kind = if sorted.len() == 1 { "list-order" } else { "rendered-content" };
+        // which dimension: hash seed (heap untouched) or heap layout (hash seed fixed)
+        let dig = |b: &Result<Vec<u8>, String>| match b { Ok(b) => simcore::digest_str(&String::from_utf8_lossy(b)), Err(e) => e.clone() };
+        let by_hash: std::collections::BTreeSet<String> = outs.iter().filter(|o| o.0.1 == 0).map(|o| dig(&o.1)).collect();
+        let first_hs = outs[0].0.0;
+        let by_heap: std::collections::BTreeSet<String> = outs.iter().filter(|o| o.0.0 == first_hs).map(|o| dig(&o.1)).collect();
+        let dim = match (by_hash.len() > 1, by_heap.len() > 1) {
+            (true, true) => "hash-seed+heap-layout",
+            (true, false) => "hash-seed",
+            (false, true) => "heap-layout",
+            _ => "?",
+        };
+        let kind = format!("{kind}:{dim}");
+        violations.push((
+            format!("C35:not-reproducible:{kind}"),
+            format!("{} distinct outputs over {k} hash seeds for a workspace of {} files", distinct.len(), spec.files.len()),
+        ));
+    }
+    // completeness / exactly-once / nothing from libraries (first output)
+    if let Ok(bytes) = &first {
+        if let Ok(doc) = serde_json::from_slice::<Value>(bytes) {
+            counters.insert("exports_parsed".to_string(), 1);
+            let (main, lib) = declared_entities(&spec);
+            let types = doc.get("types").and_then(|t| t.as_array()).cloned().unwrap_or_default();
+            let names: Vec<String> = types.iter().filter_map(|t| t.get("name").and_then(|n| n.as_str()).map(|s| s.to_string())).collect();
+            for (kind, name) in &main {
+                let n = names.iter().filter(|x| *x == name).count();
+                if n == 0 {
+                    violations.push((format!("C35:missing:{kind}"), format!("{kind} {name} declared in the main workspace is not exported")));
+                } else if n > 1 {
+                    violations.push((format!("C35:duplicate:{kind}"), format!("{kind} {name} exported {n} times")));
+                }
+            }
+            for name in &lib {
+                if names.contains(name) && !main.iter().any(|(_, m)| m == name) {
+                    violations.push(("C35:library-entity-exported".into(), format!("type {name} is declared only in a library root but exported")));
+                }
+            }
+            // std library must not leak
+            for std_name in ["stringlib", "io", "file*", "tablelib", "oslib"] {
+                if names.iter().any(|n| n == std_name) {
+                    violations.push(("C35:std-entity-exported".into(), format!("std type {std_name} exported")));
+                }
+            }
+            // globals exactly once per declaration site
+            let globals = doc.get("globals").and_then(|t| t.as_array()).cloned().unwrap_or_default();
+            let mut seen: BTreeMap<String, usize> = BTreeMap::new();
+            for g in &globals {
+                let key = format!("{}@{}", g.get("name").and_then(|n| n.as_str()).unwrap_or(""), g.get("loc").map(|l| l.to_string()).unwrap_or_default());
+                *seen.entry(key).or_insert(0) += 1;
+            }
+            for (k2, n) in seen {
+                if n > 1 {
+                    violations.push(("C35:duplicate:global".into(), format!("global {k2} exported {n} times")));
+                }
+            }
+            for g in &globals {
+                let name = g.get("name").and_then(|n| n.as_str()).unwrap_or("");
+                if name.starts_with("LibGlob") {
+                    violations.push(("C35:library-entity-exported".into(), format!("global {name} is assigned only in a library root but exported")));
+                }
+            }
+        }
+    } else if let Err(e) = &first {
+        violations.push(("C35:export-failed".into(), e.clone()));
+    }
+    let mut seen = std::collections::BTreeSet::new();
+    violations.retain(|x| seen.insert(x.0.clone()));
+    if verbose {
+        println!("spec: {}", serde_json::to_string_pretty(&spec).unwrap_or_default());
+        if let Ok(b) = &first {
+            println!("{}", String::from_utf8_lossy(b).chars().take(3000).collect::<String>());
+        }
+    }
+    let d = distinct.iter().next().cloned().unwrap_or_default();
+    CaseReport {
+        violations,
+        digest: d.clone(),
+        nontrivial: spec.files.len() >= 3,
+        final_state: d,
+        counters,
+        sample: json!({"files": spec.files.iter().map(|f| f.rel.clone()).collect::<Vec<_>>(), "hash_seeds": k}),
+        error: None,
+    }
+}
+
+pub fn c35_shrink(spec_v: &Value) -> Vec<Value> {
+    let Ok(spec) = serde_json::from_value::<DocSpec>(spec_v.clone()) else { return vec![] };
+    let mut out = Vec::new();
+    if spec.files.len() > 1 {
+        for i in 0..spec.files.len() {
+            let mut s = spec.clone();
+            s.files.remove(i);
+            s.variants.remove(i);
+            out.push(s);
         }
     }
     out.into_iter().filter_map(|s| serde_json::to_value(s).ok()).collect()
